@@ -327,13 +327,13 @@ _C08_LIFT = {"engine": "lift", "name": "C08_index", "shim": "C08_shim.cpp", "dri
 _C08_LIFT["thorough"] = _C08_LIFT["quick"]
 PROPERTIES["C08"] = {
     "level": "other",
-    "level_text": "LIFT-C unit: bounded model checking (CBMC) of the lifted mask / iterator / range-check code with all sample indices, list contents and mask bytes symbolic. SRE unit C08_views: symbolic execution of the real datasource -> dataset -> generator stack with one distinct symbol per float64 cell: select/flatten/targets must return exactly the stored symbols (handle identity) under the documented encodings, drop/shuffle/undo included; because the views forward cells unchanged these obligations are decided structurally (no arithmetic query is needed), and the categorical / uint8 parts and the 2^8 class-count boundary configurations are concrete enumerations",
+    "level_text": "LIFT-C unit: bounded model checking (CBMC) of the lifted mask / iterator / range-check code with all sample indices, list contents and mask bytes symbolic. SBV unit C08_storage: bounded symbolic execution of the real datasource -> storage -> dataset -> generator stack with SYMBOLIC integer / label / label-set / float cells of the storage types int8, uint16, int32, int64, float32, float64, uint8..uint16 label storage (class counts 2..257) and a SYMBOLIC given/missing mask: select and flatten of every feature equal the stored values under the documented encodings, missing = NaN / -1, column bookkeeping consistent; a fault of the real code (e.g. null dereference) on any feasible path is reported with the path's model and confirmed on the native build. SRE unit C08_views: symbolic execution of the real datasource -> dataset -> generator stack with one distinct symbol per float64 cell: select/flatten/targets must return exactly the stored symbols (handle identity) under the documented encodings, drop/shuffle/undo included; because the views forward cells unchanged these obligations are decided structurally (no arithmetic query is needed), and the categorical / uint8 parts and the 2^8 class-count boundary configurations are concrete enumerations",
     "level_note": LIFT_NOTE + "; dataset_t object fabricated field-by-field in the shim (check() only reads the sample and feature counts); nano::critical0<...> lowered to an exception flag",
-    "technique": LIFT_TECH,
+    "technique": LIFT_TECH + "; storage types / missing masks by " + SBV_TECH + "; float64 views by " + SRE_TECH,
     "explanation": "C08: index-space clauses (bit masks, iterator -> stored sample mapping, rejection of out-of-range sample/feature indices) by CBMC; view clauses (select / flatten / targets / drop / shuffle) by symbolic execution with distinct symbols per cell.",
     "assumptions": ["N <= 16 samples, lists of <= 4 indices (repetitions, any order), masks <= 3 bytes"],
     "bounds": {"samples": "1..16 (masks up to 24 bits, optional() up to 20 samples)", "list length": "<= 4", "unwind": "3..22 with unwinding assertions"},
-    "outside": ["class counts > 3, 16 threads, schemas beyond the enumerated ones", "storage types other than float64 for symbolic cells"],
+    "outside": ["16 threads, schemas beyond the enumerated ones", "structured integer features, uint32/uint64/int16/uint8 scalar storage, more than 3 samples with symbolic masks", "pairwise / product / gradient generators"],
     "units": [_C08_LIFT,
         {"engine": "sre", "harness": "C08_views", "sources": ["C08_views.cpp"],
          "quick": ["f=rsmr;n=3", "f=rSsr;n=3;miss=4;df=1", "f=rrSr;n=4;miss=1;df=2", "f=smur;n=3;cls=256", "f=sur;n=3;cls=256;df=1", "f=sur;n=3;cls=255", "f=sur;n=3;cls=257", "f=rsmr;n=3;order=0;miss=0"],
@@ -341,6 +341,13 @@ PROPERTIES["C08"] = {
                      ["f=%s;n=3;cls=%d;df=%d" % (f, c, df) for f in ("smur", "sur", "usr") for c in (2, 255, 256, 257) for df in (0, 1)],
          "encoded": ["nano::dataset_t::{flatten, select, targets, drop, undrop, shuffle, unshuffle, shuffled, columns, column2feature, feature}", "nano::elemwise_generator_t<identity>::{flatten, select_*}",
                      "nano::datasource_t::{resize, set, visit}", "nano::feature_storage_t::set", "nano::generator_t::{shuffle, shuffled, should_drop, flatten_dropped}"]},
+        {"engine": "sbv", "harness": "C08_storage", "sources": ["C08_storage.cpp", "../sre/sre_support.cpp"], "env": {"SBV_MERGE_CAP": "300"},
+         "quick": ["f=sa;n=2;cls=3", "f=mbe;n=2", "f=dcr;n=2", "f=sm;n=2;cls=2", "f=s;n=1;cls=256;rep=0", "f=s;n=1;cls=257;rep=0", "f=s;n=1;cls=255;rep=0", "f=ms;n=1;cls=4"],
+         "thorough": ["f=%s;n=%d;cls=%d" % t for t in (("sa", 2, 3), ("mbe", 2, 3), ("dcr", 2, 3), ("sm", 3, 2), ("ab", 3, 3), ("es", 2, 5), ("rm", 2, 3), ("cd", 2, 3), ("sss", 2, 3))] +
+                     ["f=s;n=1;cls=%d;rep=0" % c for c in (2, 255, 256, 257)] + ["f=s;n=2;cls=256;rep=1", "f=ms;n=1;cls=4"],
+         "budget": {"quick": {"deadline_s": 150, "max_paths": 20000, "query_s": 20}, "thorough": {"deadline_s": 1200, "max_paths": 200000, "query_s": 60}},
+         "encoded": ["nano::datasource_t::{resize, set (every storage type), load, visit}", "nano::feature_storage_t / update_size_storage (storage type selection by class count)", "nano::setbit/getbit masks (symbolic given/missing pattern)",
+                     "nano::dataset_t::{add, flatten, select, targets, columns, column2feature, feature}", "nano::elemwise_generator_t<sclass/mclass/scalar identity>::{flatten, select}", "nano::feature_t"]},
     ],
 }
 
@@ -366,7 +373,7 @@ PROPERTIES["C17"] = {
 
 PROPERTIES["C15"] = {
     "level": "other",
-    "level_text": "SBV unit: bounded symbolic execution of the real tensor writer/reader through real std::istream/std::ostream objects: (a) write;read is the identity for ALL contents (shapes enumerated), (b) for EVERY byte buffer of the configured length (hence every truncation and every corruption of header and payload, dims bounded) the real reader accepts exactly what an independently written reference reader of the documented layout accepts and decodes the same shape and contents, (c) every strict prefix of a valid stream is rejected, (d) any alteration of the last payload element is rejected. LIFT-C unit: bounded model checking of the lifted hash kernel (last-element injectivity; the non-final collision is a known finding)",
+    "level_text": "SBV unit: bounded symbolic execution of the real tensor writer/reader through real std::istream/std::ostream objects: (a) write;read is the identity for ALL contents (shapes enumerated), (b) for EVERY byte buffer of the configured length (hence every truncation and every corruption of header and payload, dims bounded) the real reader accepts exactly what an independently written reference reader of the documented layout accepts and decodes the same shape and contents, (c) every strict prefix of a valid stream is rejected, (d) any alteration of the last payload element is rejected; unit C15_objects: parameters of every kind with SYMBOLIC in-domain values and bounds, strings with symbolic characters and whole registered solver objects are written and read back equal and bit-identical, and every strict prefix of their streams is rejected. LIFT-C unit: bounded model checking of the lifted hash kernel (last-element injectivity; the non-final collision is a known finding)",
     "level_note": SBV_NOTE + "; " + LIFT_NOTE,
     "technique": SBV_TECH + "; hash kernel additionally by " + LIFT_TECH,
     "explanation": "C15 (tensor clauses): nano::write / nano::read of tensors executed symbolically on in-memory stream buffers (std::istream::read / std::ostream::write run natively, their byte transfers are mirrored in the symbolic shadow memory); nano::detail::hash lifted to C for CBMC.",
@@ -374,7 +381,7 @@ PROPERTIES["C15"] = {
                                  "LIFT-C unit: payload length <= 3 elements (uint8: <= 4)"],
     "bounds": {"ranks": "1..3", "dims": "0..3 per axis (negative dims in dedicated configurations)", "buffer length": "<= 48 bytes", "scalar types": "int8, uint8, uint16, int32, int64, float32, float64",
                "LIFT-C": "<= 3 elements (uint8: 4), unwind 4..6"},
-    "outside": ["serialization of parameters, features, configurable objects, weak learners and models (std::string / factory / virtual read-write paths): not covered",
+    "outside": ["serialization of features, weak learners and models (linear, gboost): not covered; parameters, strings and configurable objects (solvers) are covered by unit C15_objects for round trip and prefix rejection",
                 "bit-identical predictions of re-read models", "file-backed or refilling stream buffers", "tensors with more than 8 elements",
                 "known finding: a single-byte alteration of a NON-final element can keep the hash (hash_combine not injective in its seed); covered by the LIFT-C unit and recorded in known_findings.jsonl"],
     "units": [
@@ -400,6 +407,14 @@ PROPERTIES["C15"] = {
          "budget": {"quick": {"deadline_s": 100, "max_paths": 20000, "query_s": 20}, "thorough": {"deadline_s": 900, "max_paths": 200000, "query_s": 60}},
          "encoded": ["nano::write(std::ostream&, tensor_t)", "nano::read(std::istream&, tensor_t)", "nano::write / write_cast / read / read_cast (core/stream.h)", "nano::detail::hash, hash_combine, hash_version",
                      "tensor_t::resize / tensor_vector_storage_t (Eigen storage)", "std::istream::read, std::ostream::write, basic_ios::clear/setstate (native libstdc++ on concrete stream state)"]},
+        {"engine": "sbv", "harness": "C15_objects", "sources": ["C15_objects.cpp"],
+         "quick": ["mode=param;kind=f", "mode=param;kind=f;lt=1;ltmax=1", "mode=param;kind=i", "mode=param;kind=i;lt=1", "mode=param;kind=fp", "mode=param;kind=ip", "mode=param;kind=e",
+                   "mode=string;len=4", "mode=string;len=0", "mode=config;id=gd", "mode=config;id=lbfgs;step=11"],
+         "thorough": ["mode=param;kind=%s;lt=%d;ltmax=%d" % (k, a, b) for k in ("f", "i", "fp") for a in (0, 1) for b in (0, 1)] + ["mode=param;kind=ip", "mode=param;kind=e",
+                      "mode=string;len=4", "mode=string;len=0", "mode=string;len=17"] + ["mode=config;id=%s;step=1" % i for i in ("gd", "lbfgs", "cgd-pr", "osga")],
+         "budget": {"quick": {"deadline_s": 100, "max_paths": 20000, "query_s": 20}, "thorough": {"deadline_s": 900, "max_paths": 200000, "query_s": 60}},
+         "encoded": ["nano::parameter_t::{write, read, operator==, value, value_pair, make_scalar, make_integer, make_scalar_pair, make_integer_pair, make_enum, make_string}", "(anonymous)::read/write(range_t, pair_range_t)",
+                     "nano::configurable_t::{write, read, parameter, parameters}", "nano::read/write(std::string), read/write(std::vector<parameter_t>)", "nano::solver_t::all / factory_t::get (std::call_once emulated)", "nano::critical (exception path)"]},
     ],
 }
 PROPERTIES["C15"]["units"][0]["thorough"] = PROPERTIES["C15"]["units"][0]["quick"]
@@ -430,7 +445,7 @@ PROPERTIES["C13"] = {
          "thorough": ["tuner=surrogate;g=%s;land=%s;evals=%d" % (g, l, e) for g in ("5", "7", "4,3", "5,5", "31") for l in ("corner", "center", "plateau") for e in (10, 20)] + ["tuner=surrogate;g=%s;land=free" % g for g in ("2", "3", "4")],
          "budget": {"quick": {"deadline_s": 60, "max_paths": 20000}, "thorough": {"deadline_s": 900, "max_paths": 400000}},
          "encoded": _C13_ENC},
-        {"engine": "sre", "harness": "C13_tune", "sources": ["C13_tune.cpp"],
+        {"engine": "sre", "harness": "C13_tune", "sources": ["C13_tune.cpp"], "concrete_strict": True,
          "quick": ["n=4;folds=2;g=3;evals=10;per=1", "n=5;folds=3;g=5;evals=10;per=1", "n=4;folds=2;g=7;evals=10;per=1;order=1", "n=4;folds=2;g=0", "n=4;folds=2;g=2;evals=10;per=2", "n=6;folds=3;g=9;evals=10;per=1;order=1"],
          "thorough": ["n=%d;folds=%d;g=%d;evals=%d;per=1;order=%d" % (n, f, g, e, o) for (n, f, g, e, o) in ((4, 2, 3, 10, 0), (5, 3, 5, 10, 0), (4, 2, 7, 10, 1), (6, 3, 9, 10, 1), (6, 2, 6, 10, 0), (4, 2, 4, 20, 0), (5, 2, 13, 12, 1), (8, 4, 4, 10, 0))] +
                      ["n=4;folds=2;g=0", "n=6;folds=3;g=0;per=2", "n=4;folds=2;g=2;evals=10;per=2", "n=4;folds=2;g=3;evals=10;per=2"],
